@@ -694,7 +694,13 @@ fn c15(seed: u64, thorough: bool) -> Scenario {
         let ext = f.path.rsplit('.').next().unwrap().to_string();
         let comps: Vec<&str> = f.path.split('/').collect();
         let name = comps.last().unwrap().to_string();
-        match g.rng.below(7) {
+        match g.rng.below(10) {
+            // globs that name a *directory* (they match no file below it: a glob matches whole paths)
+            7 if comps.len() > 1 => format!("**/{}", comps[comps.len() - 2]),
+            8 if comps.len() > 1 => comps[..comps.len() - 1].join("/"),
+            9 if comps.len() > 1 && comps[comps.len() - 2].contains('.') => {
+                format!("*.{}", comps[comps.len() - 2].rsplit('.').next().unwrap())
+            }
             0 => format!("**/*.{ext}"),
             1 if comps.len() > 1 => format!("{}/**", comps[0]),
             2 if comps.len() > 2 => format!("{}/{}/**", comps[0], comps[1]),
@@ -1247,6 +1253,20 @@ pub fn stats(sc: &Scenario, reports: &[ChildReport]) -> ScenarioStats {
                 }
                 if in_diff && !globbed && !w0.args.globs.is_empty() && !ignored {
                     bump(&mut st.probes, "diff_only_file_bypasses_globs");
+                }
+                let ancestors: Vec<String> = {
+                    let comps: Vec<&str> = f.path.split('/').collect();
+                    (1..comps.len()).map(|k| comps[..k].join("/")).collect()
+                };
+                for gl in &w0.args.ignore {
+                    if !model::glob_match(gl, &f.path) && ancestors.iter().any(|a| model::glob_match(gl, a)) {
+                        bump(&mut st.probes, "ignore_glob_matches_only_a_parent_directory");
+                    }
+                }
+                for gl in &w0.args.globs {
+                    if !model::glob_match(gl, &f.path) && ancestors.iter().any(|a| model::glob_match(gl, a)) {
+                        bump(&mut st.probes, "positional_glob_matches_only_a_parent_directory");
+                    }
                 }
                 if matches!(f.diff, FileDiff::Deleted) && !w0.is_terminal() {
                     bump(&mut st.probes, "deleted_file_section");
